@@ -95,6 +95,16 @@ def stored_form(rng, form, base, content, mtime):
         members = [(mname, content, mtime)]
         if rng.random() < 0.5:
             members.insert(rng.randrange(2), ("notes.nfo", b"not a log\n", mtime))
+        if rng.random() < 0.5:
+            # entries that are not regular files, before / between / after the member (as `tar cf x.tar dir/` writes them)
+            for _ in range(rng.randint(1, 3)):
+                kind_ = rng.choice(("dir", "dir", "symlink", "hardlink"))
+                ent = {"dir": ("sub%d/" % rng.randrange(9), ("dir",), mtime),
+                       "symlink": ("link%d.nfo" % rng.randrange(9), ("symlink", "notes.nfo"), mtime),
+                       "hardlink": ("hard%d.nfo" % rng.randrange(9), ("hardlink", "notes.nfo"), mtime)}[kind_]
+                if kind_ == "dir" and "/" in mname and rng.random() < 0.5:
+                    ent = (mname.rsplit("/", 1)[0] + "/", ("dir",), mtime)
+                members.insert(rng.randrange(len(members) + 1), ent)
         fmt = rng.choice(("ustar", "gnu", "pax"))
         return "c_arch.tar", world.to_tar(members, fmt), {"kind": "tar", "format": fmt, "members": len(members), "member_path": style}
     data, descr = world.random_container(rng, form, content, mtime=mtime, name=base)
